@@ -477,6 +477,11 @@ func cliExec(c *Ctx, op string) {
 	if l, e := net.Listen("unix", filepath.Join(base, "onlysock", "s")); e == nil {
 		defer l.Close()
 	}
+	// bystanders: a directory with a precious file and a symlink to it (an unpack target to be), whatever a vector does
+	// they must be intact afterwards, and so must the source tree and the warehouse holding the good ware
+	os.MkdirAll(filepath.Join(base, "precious-dir"), 0755)
+	os.WriteFile(filepath.Join(base, "precious-dir", "precious"), []byte("keep me"), 0644)
+	os.Symlink("precious-dir", filepath.Join(base, "tlink"))
 	bin := os.Getenv("RIO_BIN")
 	if bin == "" {
 		c.EmitR(op, "skip", "skip")
@@ -499,13 +504,23 @@ func cliExec(c *Ctx, op string) {
 		s = strings.ReplaceAll(s, "@HTTP@", brokenHTTP())
 		args = append(args, s)
 	}
+	srcBefore, _ := Snapshot(filepath.Join(base, "src"))
+	runDir := base
+	for len(args) > 0 && (strings.HasPrefix(args[0], "@ENV:") || strings.HasPrefix(args[0], "@CD:")) {
+		if strings.HasPrefix(args[0], "@ENV:") { // an environment setting for this vector
+			env = append(env, strings.TrimSuffix(strings.TrimPrefix(args[0], "@ENV:"), "@"))
+		} else { // the directory the command is started in
+			runDir = filepath.Join(base, strings.TrimSuffix(strings.TrimPrefix(args[0], "@CD:"), "@"))
+		}
+		args = args[1:]
+	}
 	cmd := exec.Command(bin, args...)
 	if len(args) > 0 && args[0] == "@GONE@" { // started in a working directory that has been removed meanwhile
 		args = args[1:]
 		cmd = exec.Command("sh", append([]string{"-c", `mkdir gone-cwd && cd gone-cwd && rmdir ../gone-cwd && exec "$0" "$@"`, bin}, args...)...)
 	}
 	cmd.Env = env
-	cmd.Dir = base
+	cmd.Dir = runDir
 	var stdout, stderr bytes.Buffer
 	cmd.Stdout, cmd.Stderr = &stdout, &stderr
 	err := cmd.Run()
@@ -516,6 +531,18 @@ func cliExec(c *Ctx, op string) {
 		} else {
 			code = -1
 		}
+	}
+	if b, e := os.ReadFile(filepath.Join(base, "precious-dir", "precious")); e != nil || string(b) != "keep me" {
+		c.PropFail("cli-bystander", fmt.Sprintf("rio %q destroyed a file outside everything it was pointed at (the directory a symlinked target points to was emptied)", args), op)
+	}
+	if goodID != "" && !strings.Contains(strings.Join(args, " "), "--target=ca+file://"+filepath.Join(base, "wh")) {
+		h := strings.TrimPrefix(goodID, "tar:")
+		if _, e := os.Stat(filepath.Join(base, "wh", h[0:3], h[3:6], h)); e != nil && len(h) > 6 {
+			c.PropFail("cli-bystander", fmt.Sprintf("rio %q deleted a ware from a warehouse it was only reading from", args), op)
+		}
+	}
+	if sa, _ := Snapshot(filepath.Join(base, "src")); len(args) > 0 && sa.Digest(true) != srcBefore.Digest(true) {
+		c.PropFail("cli-bystander", fmt.Sprintf("rio %q changed the fileset it packs from / a directory it was not pointed at: %s", args, DiffFilesets(srcBefore, sa, true)), op)
 	}
 	if code == 2 || code < 0 || strings.Contains(stderr.String(), "goroutine ") || strings.Contains(stderr.String(), "panic:") {
 		c.PropFail("cli-crash", fmt.Sprintf("rio %q crashed (exit %d): %s", args, code, lastLine(stderr.String())), op)
@@ -679,6 +706,23 @@ func cliEngine(c *Ctx) {
 		[]string{"@GONE@", "--format=json", "unpack", "@GOODID@", "rel/target", "--source=ca+file://@W@/wh", "--placer=direct"},
 		[]string{"@GONE@", "pack", "tar", "."}, []string{"@GONE@", "pack", "tar", "@W@/src", "--target=file://rel/t.tgz"}, []string{"@GONE@", "pack", "zip", "@W@/src", "--target=ca+file://relwh"},
 		[]string{"@GONE@", "mirror", "@GOODID@", "--target=ca+file://relwh", "--source=ca+file://@W@/wh"}, []string{"@GONE@", "mirror", "@GOODID@", "--target=ca+file://@W@/wh2", "--source=file://rel/ware"})
+	// relative RIO_* settings with the working directory gone; targets that are symlinks; sources below the target;
+	// addresses without "//" (opaque URLs) from inside the fileset
+	vecs = append(vecs, []string{"@ENV:RIO_BASE=relbase@", "@GONE@", "unpack", "@GOODID@", "@W@/dst", "--source=ca+file://@W@/wh"},
+		[]string{"@ENV:RIO_CACHE=relcache@", "@GONE@", "unpack", "@GOODID@", "@W@/dst", "--source=ca+file://@W@/wh", "--placer=none"},
+		[]string{"@ENV:RIO_MOUNT_WORKDIR=relwork@", "@GONE@", "unpack", "@GOODID@", "@W@/dst", "--source=ca+file://@W@/wh", "--placer=mount"},
+		[]string{"@ENV:RIO_BASE=relbase@", "@GONE@", "scan", "tar", "--source=file://@W@/nonexistent.tgz"})
+	for _, pl := range []string{"direct", "copy", "none"} {
+		vecs = append(vecs, []string{"unpack", "@GOODID@", "@W@/tlink", "--source=ca+file://@W@/wh", "--placer=" + pl},
+			[]string{"unpack", "@GOODID@", "@W@", "--source=ca+file://@W@/wh", "--placer=" + pl},
+			[]string{"unpack", "@GOODID@", "@W@/wh/..", "--source=ca+file://@W@/wh", "--placer=" + pl},
+			[]string{"@CD:wh@", "unpack", "@GOODID@", ".", "--source=ca+file://.", "--placer=" + pl})
+	}
+	for _, fm := range []string{"tar", "zip"} {
+		vecs = append(vecs, []string{"@CD:src@", "pack", fm, ".", "--target=ca+file:../wh"}, []string{"@CD:src@", "pack", fm, ".", "--target=file:../wh/mono.bin"},
+			[]string{"@CD:src@", "pack", fm, ".", "--target=ca+file:"}, []string{"@CD:src@", "mirror", "@GOODID@", "--target=ca+file:../wh2", "--source=ca+file://@W@/wh"},
+			[]string{"@CD:src@", "scan", fm, "--source=file:../wh/x"})
+	}
 	for _, v := range vecs {
 		cliExec(c, mk(v...))
 	}
@@ -728,6 +772,20 @@ func libPlacementModes(c *Ctx) {
 				c.PropFail("panic-unpack", fmt.Sprintf("Unpack with placement mode %q panicked: %s", string(pm), p2), op)
 			} else if e2 != nil && strings.HasPrefix(catOf(e2), "uncategorized") {
 				c.PropFail("uncategorized-error", fmt.Sprintf("Unpack with placement mode %q: %v", string(pm), e2), op)
+			}
+			for _, dest := range []string{"rel/path", "", "-", ".", "./x"} {
+				if pm == rio.Placement_None || pm == rio.Placement_Mount {
+					continue
+				}
+				_, e3, p3 := safeCall(func() (api.WareID, error) {
+					return fn.unpack(ctx, id, dest, api.MustParseFilesetUnpackFilter(losslessUnpackStr), pm, []api.WarehouseLocation{whAddr("ca", wh)}, rio.Monitor{})
+				})
+				if p3 != "" {
+					c.PropFail("panic-unpack", fmt.Sprintf("Unpack (placement %q) with the destination %q panicked: %s", string(pm), dest, p3), op)
+				} else if e3 == nil {
+					os.RemoveAll("rel")
+					os.RemoveAll("x")
+				}
 			}
 			c.H("lib-placement:" + catOf(e1) + ":" + catOf(e2))
 			c.EmitR(op, "skip", "skip")
